@@ -852,6 +852,22 @@ def _optarr_wrap(t):
     return VOpt(t == 0, VOpaque('array'))
 
 
+def _mentions(f, c):
+    stack, seen = [f], set()
+    while stack:
+        t = stack.pop()
+        if t.get_id() in seen:
+            continue
+        seen.add(t.get_id())
+        if z3.is_const(t) and t.get_id() == c.get_id():
+            return True
+        if z3.is_app(t):
+            stack.extend(t.children())
+        elif z3.is_quantifier(t):
+            stack.append(t.body())
+    return False
+
+
 def listcomp(ex, st, e):
     if len(e.generators) != 1:
         raise Unsupported('list comprehension with several generators')
@@ -885,7 +901,15 @@ def listcomp(ex, st, e):
         st.pc.append(z3.And(j >= 0, j < it.n))
         ex.assign(g.target, it.bind(ex, st, j), st)
         elt = ex.ev(e.elt, st)
+        _guard, _added = st.pc[mark], st.pc[mark + 1:]
         del st.pc[mark:]
+        for _f in _added:
+            # definitions of fresh symbols that do not depend on the generic position stay as they are; everything else
+            # (assumed obligations, facts about the generic element) stays guarded by 0 <= j < n
+            if _f.get_id() not in st.assumed and not _mentions(_f, j):
+                st.pc.append(_f)
+            else:
+                st.pc.append(z3.Implies(_guard, _f))
         used('[expr for x in seq] -> sequence of the same length with expr at a generic index')
         if elt is NONE:
             return st.alloc(VSeq(z3.K(z3.IntSort(), z3.IntVal(0)), it.n, _optarr_wrap, tag='optarr'))
